@@ -54,7 +54,7 @@ class Analysis:
         it._summaries = self.it._summaries
         it._pure = self.it._pure
         assume = it.assume_for(callee, which) if which else None
-        hole = it._default_hole if callee.fn.kind == 'ctxgen' else None
+        hole = it._default_hole_ev if callee.fn.kind == 'ctxgen' else None
         paths = it.paths_of(callee, assume, hole)
         self.it.stats['paths'] += len(paths)
         self.it.stats['functions'] |= it.stats['functions']
